@@ -98,3 +98,29 @@ def known_classes(prop: str, obligation: str | None = None) -> set[str]:
 		if obligation is None or obligation in e.get('obligations', [obligation]):
 			out.add(e['class'])
 	return out
+
+
+# ---------------------------------------------------------------- character-class alphabets
+# An alphabet is a list of character classes (strings). CrossHair keeps a whole class on one path when the code under
+# test only asks "is this character in <class>" (measured: 53 identifier letters cost the same 55 paths as the single
+# letter 'a'), so alphabets are unions of real lexical classes rather than single representatives.
+CLASSES: list = list(CASE.get('classes', []))
+ALPHA: str = ''.join(CLASSES)
+PREFIX: list = list(CASE.get('prefix', []))  # class index required for each of the first len(PREFIX) characters
+
+
+def in_alpha(s: str) -> bool:
+	return all(c in ALPHA for c in s)
+
+
+def prefix_ok(s: str) -> bool:
+	if len(s) < len(PREFIX):
+		return False
+	for i in range(len(PREFIX)):
+		if s[i] not in CLASSES[PREFIX[i]]:
+			return False
+	return True
+
+
+LETTERS = 'abcdefghijklmnopqrstuvwxyzABCDEFGHIJKLMNOPQRSTUVWXYZ_'
+DIGITS = '0123456789'
